@@ -236,7 +236,9 @@ PROPS = {
                 "consume_token(t) on a shallow clone, EOS-in-mask with is_accepting, and validate_tokens(seq) with the number of tokens "
                 "a clone commits one by one. evaluations = individual token comparisons. A state is non-trivial when its mask has "
                 ">=2 and <|V| tokens and (for multi-byte vocabularies) at least one allowed multi-byte token; distinct by "
-                "(grammar hash, token history hash, vocabulary name).",
+                "(grammar hash, token history hash, vocabulary name). try_consume_tokens(seq) on a clone must take exactly the committable "
+                "prefix and end in the state (stop flag, mask) that committing that prefix one by one ends in. Vocabularies include a "
+                "layout with the special tokens at low ids (1, 2, 10, 100..110), grammars include sentences mixing text and named special tokens.",
         "assumptions": ["clone()/deep_clone() give independent engines (decided separately by C14)",
                         "a failing consume_token leaves the original (un-cloned) engine untouched because it is applied to a clone"],
         "quick": {"runs": [q(deadline=45)], "floor": {"states": 1500, "distinct_nontrivial": 300, "validate_seq_checks": 200}},
@@ -261,7 +263,9 @@ PROPS = {
         "case_counter": "cases",
         "rule": "case = random program over {commit k tokens, run to completion, commit EOS, rollback j (1..history), reset}; after every "
                 "rollback the engine is compared with a fresh replay engine on mask, accepting, forced bytes/tokens, stop status and "
-                "validate_tokens probes, and then both are driven in lock-step comparing every mask. evaluations = observable comparisons. "
+                "validate_tokens probes, and then both are driven in lock-step comparing every mask; a forward phase that follows a rollback "
+                "and commits tokens chosen from a FRESH engine (no query on the engine under test, one phase in three through a single "
+                "consume_tokens call) is compared with the fresh replay right away. evaluations = observable comparisons. "
                 "Non-trivial = rollback of >=2 tokens, or out of a stopped state, or over an EOS; distinct by (grammar, program, vocabulary).",
         "assumptions": ["fresh replay engine is the reference for 'never saw those k tokens'"],
         "quick": {"runs": [q(deadline=45)], "floor": {"rollbacks": 800, "distinct_nontrivial": 200, "lockstep_masks": 1500}},
@@ -352,7 +356,8 @@ PROPS = {
                 "prefixItems+items), min/maxLength (1..4-byte characters, escapes, \\uXXXX incl. surrogate pairs with the option, with "
                 "pattern), min/maxProperties over additionalProperties. For every count c in 0..n+3 on the single-byte vocabulary: the "
                 "closer (or is_accepting) is allowed iff m<=c<=n, the next element iff c<n, and every byte of an allowed element is then "
-                "accepted. evaluations = (grammar, count) probes. Non-trivial = grammar with n>=1; distinct by (form, m, n).",
+                "accepted. Elements that can be empty (\"a\"?, [\"ab\"], \"a\"{0,2}), also with the repetition used from two places: every "
+                "size 0..n*max is derivable whatever m is. evaluations = (grammar, count) probes. Non-trivial = grammar with n>=1; distinct by (form, m, n).",
         "assumptions": ["single-byte vocabulary: the mask is the next-byte set"],
         "quick": {"runs": [q(deadline=60)], "floor": {"grammars": 3000, "distinct_nontrivial": 2500, "count_probes": 40000}},
         "thorough": {"runs": [q(deadline=600, watchdog=3600)], "floor": {"grammars": 20000, "distinct_nontrivial": 15000}},
@@ -416,7 +421,9 @@ PROPS = {
                 "model exists: the byte history must be a live prefix of the reference DFA / viable in the reference Earley recogniser. "
                 "Liveness half restated as bounded progress: from the last state a closing roll-out must reach an accepting stop within 400 "
                 "steps (success counted as witness, failure counted as inconclusive roll-out, never as a violation). evaluations = states "
-                "monitored. Non-trivial = walk of >=3 tokens; distinct by (grammar, history, vocabulary).",
+                "monitored. Non-trivial = walk of >=3 tokens; distinct by (grammar, history, vocabulary). The JSON family includes a length "
+                "bound next to the length a pattern implies at several magnitudes (3..700; one below, equal, one above = unsatisfiable), "
+                "as an optional property / second tuple item, compact and with flexible whitespace.",
         "assumptions": ["TokenParser API used directly so that the precise StopReason is visible"],
         "quick": {"runs": [q(deadline=50)], "floor": {"cases": 2500, "states": 20000, "distinct_nontrivial": 1500, "reference_liveness_checks": 5000}},
         "thorough": {"runs": [q(deadline=720, watchdog=5400)], "floor": {"cases": 50000, "states": 600000}},
@@ -487,7 +494,9 @@ PROPS = {
                 "every logged result is checked offline against the private reference. (3) llg_par_compute_mask (rayon) over 2..16 cloned "
                 "constraints driven to different histories vs sequential Rust masks. evaluations = op results compared under enumerated "
                 "interleavings. Non-trivial = enumeration case with a mask op and >=2 committing clones / thread run whose lock-owner "
-                "sequence shows >=2 owner switches (distinct by that sequence) / par batch.",
+                "sequence shows >=2 owner switches (distinct by that sequence) / par batch. Every private reference is an engine built from a "
+                "factory of its own that replays the base history (no slicer, lexer table or cache shared with the clones under test); "
+                "half of the clones are deep clones.",
         "assumptions": ["API calls on shallow clones are atomic w.r.t. the shared lexer (one mutex), so single-thread interleavings of whole calls cover the reachable schedules at call granularity",
                         "thorough adds a ThreadSanitizer build (-Zsanitizer=thread -Zbuild-std) of the thread workload"],
         "quick": {"runs": [q(deadline=45)], "floor": {"enum_cases": 100, "interleavings_executed": 10000, "thread_cases": 100, "threaded_op_checks": 5000, "lock_owner_switches": 200, "par_masks_checked": 500, "distinct_nontrivial": 150}},
